@@ -1181,3 +1181,61 @@ def _conjuncts(e):
     if isinstance(e, dict) and e.get("k") == "binary" and e["op"] == "&&":
         return _conjuncts(e["l"]) + _conjuncts(e["r"])
     return [e]
+
+
+# ----------------------------------------------------------------------------- C01 / C05 (names the compiler makes up)
+
+
+@rule("T-RESERVED-NAMES", floor=2,
+      text="the compiler makes up global names of its own: `cctmp` (the scratch byte of expressions, declared by the builders) and `cctmp<n>` (string "
+           "literals, `format!(\"cctmp{}\", counter)` inserted into `variables`).  Wherever the declaration code takes a global name from the source as it "
+           "is written (the `Rule::id_name` arm of a global declarator, of a function), the arm rejects names with that prefix before it uses the name: "
+           "otherwise `const char cctmp0[2] = {1, 2};` and the first string literal are one entry of `variables` (the later one replaces the other, and "
+           "two entries share an `order`, so listings come out in hash order), and `char cctmp;` is overwritten by every expression that needs a temporary")
+def t_reserved_names(facts, res, tier):
+    from scopes import scoped
+    prefixes = set()
+    for fn in facts.fns:
+        if not fn["file"].endswith("compile.rs"):
+            continue
+        for x in walk(fn["body"]):
+            if x.get("k") == "macro" and x.get("name") == "format" and x.get("args") and x["args"][0].get("k") == "lit":
+                m = re.match(r"^([A-Za-z_]+)\{\}$", str(x["args"][0]["v"]))
+                if m:
+                    prefixes.add(m.group(1))
+    if not prefixes:
+        raise AnchorMissing("no generated global name family (format!(\"<prefix>{}\", ..)) found in compile.rs")
+    n = 0
+    for fn in facts.fns:
+        if not fn["file"].endswith("compile.rs") or fn.get("test"):
+            continue
+        for m in walk(fn["body"]):
+            if m.get("k") != "match":
+                continue
+            for arm in m["arms"]:
+                if pat_text(arm["pat"]).replace(" ", "") != "Rule::id_name":
+                    continue
+                # is a name taken from the source text as written (no function prefix) in this arm?
+                bare = None
+                for x in walk(arm["body"]):
+                    if x.get("k") == "assign" and expr_text(x["l"]).strip() == "name":
+                        r = expr_text(x["r"]).replace(" ", "")
+                        if re.match(r"^(shortname\.into\(\)|\w+\.as_str\(\)\.to_string\(\)|\w+\.as_str\(\)\.into\(\))$", r):
+                            bare = x
+                if bare is None:
+                    continue
+                n += 1
+                key = "T-RESERVED-NAMES:%s" % fn["name"]
+                tested = set()
+                for x in walk(arm["body"]):
+                    if x.get("k") == "if":
+                        for c in walk(x["cond"]):
+                            if c.get("k") == "mcall" and c["method"] == "starts_with" and c.get("args") and c["args"][0].get("k") == "lit" and expr_text(c["recv"]).strip() in ("name", "shortname", "&name"):
+                                if any(y.get("k") == "return" for y in walk(x["then"])) and "Err" in expr_text(x["then"]):
+                                    tested.add(str(c["args"][0]["v"]))
+                res.inst(key, True, {"function": fn["name"], "generated_prefixes": sorted(prefixes), "rejected_prefixes": sorted(tested)})
+                for pfx in sorted(prefixes):
+                    if not any(pfx.startswith(t) for t in tested):
+                        res.fail(key + ":" + pfx, facts.where(fn, bare), "%s takes a global name from the source as written and does not reject the prefix `%s` of the names the compiler generates: a user object of that name and a generated one become the same entry" % (fn["name"], pfx))
+    if n == 0:
+        raise AnchorMissing("no arm taking a bare global name from the source found")
